@@ -57,7 +57,7 @@ class C19:
                          st.sampled_from([[1, 1], [255, 255], [2, 1]]))
 
     def examples(self, tier):
-        return 48 if tier == "quick" else 2000
+        return 48 if tier == "quick" else 30000
 
     def enumerate(self, tier):
         return [dict(sh, data_seed=7 + i, seeds=[0xA55A], lat={"C": [0.0005], "S": [0.0005]}, max_cmdt=[1, 1]) for i, sh in enumerate(shapes())]
